@@ -101,16 +101,6 @@ Proof.
   eapply is_head_unique; eapply (i_own _ I); eassumption.
 Qed.
 
-Ltac dn :=
-  repeat match goal with
-  | |- context [Nat.eqb ?a ?b] => destruct (Nat.eqb_spec a b); subst
-  | H : context [Nat.eqb ?a ?b] |- _ => destruct (Nat.eqb_spec a b); subst
-  end; cbn [andb orb] in *.
-
-Ltac t_other s t t' :=
-  (* t' <> t because their pcs differ *)
-  idtac.
-
 (** pcs of the other threads are unchanged by [upd] *)
 Lemma upd_same {A} (f : nat -> A) t v : upd f t v t = v.
 Proof. unfold upd. rewrite Nat.eqb_refl. reflexivity. Qed.
